@@ -130,6 +130,12 @@ def value_pool(rng, dtype):
     """Values an array is drawn from: {type min, min+1, small, max-1, type max}
     and random ones; float32: dyadic values with few bits."""
     dt = np.dtype(dtype)
+    if dt.kind == "f" and rng.random() < 0.15:
+        # few-bit values at the top of the float32 range: block means stay exactly
+        # representable, but sums exceed the type's maximum
+        top = 2.0 ** 127
+        return rng.sample([top, 1.5 * top, 0.5 * top, 0.0, -top, 0.75 * top, -1.5 * top, 1.25 * top],
+                          rng.randint(2, 5))
     if dt.kind == "f":
         q = rng.choice([1, 2, 4, 8])
         span = rng.choice([4, 64, 1024])
